@@ -396,6 +396,17 @@ class SymInstant:
 
     def __init__(self, base, off):
         self.base, self.off = base, off
+        # datetime arithmetic raises OverflowError outside year 1..9999 (may fork)
+        import fractions
+
+        from .values import SymReal
+
+        if isinstance(off, SymReal) and isinstance(base, _real_dt):
+            b = base.replace(tzinfo=None)
+            lo = fractions.Fraction((_real_dt.min - b).days * 86400 + (_real_dt.min - b).seconds)
+            hi = fractions.Fraction((_real_dt.max - b).days * 86400 + (_real_dt.max - b).seconds + 1)
+            if bool(off < lo) or bool(off >= hi):
+                raise OverflowError("date value out of range")
 
     @staticmethod
     def of(x):
@@ -491,6 +502,9 @@ class _TdMeta(type):
             for n, v in kw.items():
                 t = v * scale[n]
                 total = t if total is None else total + t
+            lim = 86400 * 1_000_000_000
+            if _sym_num(total) and (bool(total >= lim) or bool(total <= -lim)):
+                raise OverflowError("days; must have magnitude <= 999999999")
             return SymTimeDelta(total)
         return _real_td(*a, **k)
 
